@@ -21,15 +21,15 @@ Print Assumptions C04_source_recovery_actions.
    reply the client reads is the reply to the command it believes it answers; the commit log is exactly the
    acknowledged messages (shared with C03). *)
 Theorem C04_legal : forall (F : fixes), dialogue_repaired F ->
-  forall (cfg : config) (render : msg -> list bytes * option err) (caps : list ext) (script : list decision) (ms : list msg),
-  let o := run_case std_expects F cfg caps script ms render in
+  forall (cfg : config) (render : msg -> list bytes * option err) (caps caps_tls : list ext) (script : list decision) (ms : list msg),
+  let o := run_case std_expects F cfg caps caps_tls script ms render in
   all_legal (o_world o) = true /\ all_attributed (o_world o) = true.
 Proof. exact run_legal. Qed.
 Print Assumptions C04_legal.
 
 (* the instance that follows the source *)
-Theorem C04_legal_source : forall cfg render caps script ms,
-  let o := run_gen cfg caps script ms render in
+Theorem C04_legal_source : forall cfg render caps caps_tls script ms,
+  let o := run_gen cfg caps caps_tls script ms render in
   all_legal (o_world o) = true /\ all_attributed (o_world o) = true.
 Proof. exact run_legal_source. Qed.
 Print Assumptions C04_legal_source.
@@ -37,22 +37,34 @@ Print Assumptions C04_legal_source.
 (* The dial prefix.  The first event of every run is the greeting (the server speaks first, the client reads);
    unless the greeting was answered 220 the client never sends anything (the run ends with the dial error) —
    for every script, i.e. for 4yz / 5yz / any other code / a dropped connection at the greeting. *)
-Theorem C04_nothing_before_greeting : forall F cfg render caps script ms,
-  let o := run_case std_expects F cfg caps script ms render in
+Theorem C04_nothing_before_greeting : forall F cfg render caps caps_tls script ms,
+  let o := run_case std_expects F cfg caps caps_tls script ms render in
   exists ev0 rest, w_trace (o_world o) = ev0 :: rest /\ ev_cmd ev0 = CGreet /\
                    (ev_code ev0 <> 220%N -> rest = [] /\ o_ret o = RetDial).
 Proof. exact greeting_first. Qed.
 Print Assumptions C04_nothing_before_greeting.
 
-(* After a successful dial (EHLO accepted with 250, or EHLO refused / dropped and HELO accepted) the client's
-   extension map is exactly the set of the EHLO the server accepted last, or nil after the HELO fallback —
-   and with a nil map MAIL and RCPT carry no parameter at all.  (That every parameter actually sent is covered
-   by the server's latest EHLO set at that moment is part of C04_legal.) *)
-Theorem C04_ext_map_replaced : forall cfg caps script w1 c,
-  dial std_expects cfg (world_init caps script) = (w1, Some c) ->
+(* The extension map.  EVERY accepted EHLO replaces the client's map by the set that reply advertises — also by
+   the empty set, whatever the map was before (C04_every_ehlo_replaces; sessions with any number of EHLOs are
+   compositions of this step).  After a successful dial — EHLO, or EHLO refused and HELO accepted, then per
+   TLS policy STARTTLS + the TLS handshake (an oracle: it succeeds) + a second EHLO inside TLS — the client's map
+   is exactly the set of the EHLO the server accepted LAST (inside TLS: what it advertises inside TLS), or nil
+   after the HELO fallback, and then MAIL and RCPT carry no parameter at all.  That every parameter actually
+   sent, and the local refusal of 8bit messages, follow the server's latest EHLO set at that moment is
+   C04_legal / C04_8bit_refused_locally, which hold for all TLS policies and all pairs of capability sets. *)
+Theorem C04_every_ehlo_replaces : forall name c w st' code text,
+  Dialing (c, w) -> do_ehlo std_expects true name (c, w) = (st', ROk code text) ->
+  c_ext (fst st') = Some (s_ext (srvof st')) /\
+  s_ext (srvof st') = (if s_tls (w_srv w) then s_caps_tls (w_srv w) else s_caps (w_srv w)).
+Proof. exact every_ehlo_replaces. Qed.
+Print Assumptions C04_every_ehlo_replaces.
+
+Theorem C04_ext_map_replaced : forall (F : fixes), dialogue_repaired F ->
+  forall cfg caps caps_tls script w1 c,
+  dial std_expects F cfg (world_init caps caps_tls script) = (w1, Some c) ->
   s_open (w_srv w1) = true /\ s_helo (w_srv w1) = true /\
   match c_ext c with
-  | Some l => l = s_ext (w_srv w1) /\ l = s_caps (w_srv w1)
+  | Some l => l = s_ext (w_srv w1) /\ l = (if s_tls (w_srv w1) then s_caps_tls (w_srv w1) else s_caps (w_srv w1))
   | None => s_ext (w_srv w1) = [] /\ mail_params c = [] /\ rcpt_params c = []
   end.
 Proof. exact dial_ext. Qed.
@@ -61,8 +73,8 @@ Print Assumptions C04_ext_map_replaced.
 (* After every message of every batch (failed or not), the next one starts from a clean transaction —
    server idle, not in data mode, no unread reply, no open dot-writer — or the connection is closed. *)
 Theorem C04_clean_or_closed : forall (F : fixes), dialogue_repaired F ->
-  forall cfg render caps script ms w1 c st1 e st2 rs,
-  dial std_expects cfg (world_init caps script) = (w1, Some c) ->
+  forall cfg render caps caps_tls script ms w1 c st1 e st2 rs,
+  dial std_expects F cfg (world_init caps caps_tls script) = (w1, Some c) ->
   check_conn std_expects cfg (c, w1) = (st1, e) ->
   send_msgs std_expects F cfg render ms st1 = (st2, rs) ->
   clean_or_closed st2.
@@ -102,6 +114,16 @@ Theorem C04_failed_rset_before_fix_refuted :
   exists script ms render, all_legal (o_world (run fixes_none script ms render)) = false.
 Proof. exists script_rset_fails, [m0; m1], render_ok. exact failed_rset_before_fix. Qed.
 Print Assumptions C04_failed_rset_before_fix_refuted.
+
+(* a variant of ehlo() that does not replace the map when the reply has no extension line is refuted by a
+   STARTTLS session (8BITMIME before TLS, nothing inside): witness replayed on the real code in corpus/C04.txt *)
+Theorem C04_ext_not_replaced_refuted : all_legal (o_world (run_tls fixes_keep_ext)) = false.
+Proof. exact ext_not_replaced_refuted. Qed.
+Print Assumptions C04_ext_not_replaced_refuted.
+
+Theorem C04_source_starttls_says_ehlo : VerifGen.Gen.starttls_says_ehlo = true.
+Proof. exact gen_starttls_says_ehlo. Qed.
+Print Assumptions C04_source_starttls_says_ehlo.
 
 Theorem C04_misattribution_before_fix_refuted :
   exists script ms render, all_attributed (o_world (run fixes_none script ms render)) = false.
